@@ -15,7 +15,10 @@ import (
 	"math/rand"
 	"os"
 	"path/filepath"
+	"runtime"
 	"sort"
+	"sync"
+	"sync/atomic"
 
 	"github.com/pinealctx/neptune/cache"
 	"github.com/pinealctx/neptune/cache/tiny"
@@ -258,7 +261,7 @@ func routeTrace(w *tr.W, rng *rand.Rand, n, nrand int, src string) int {
 		rm = remap.NewReMap(remap.WithPrime(uint64(n)))
 	}
 	r := &router{w: w, n: n, rm: rm, rng: rng}
-	w.Emit(tr.E{"ev": "reset", "kind": "route", "shards": n, "numbs": clampIdx(int(rm.Numbs())), "src": src})
+	w.Emit(tr.E{"ev": "reset", "kind": "route", "threads": 1, "shards": n, "numbs": clampIdx(int(rm.Numbs())), "src": src})
 
 	type job func()
 	var jobs []job
@@ -528,7 +531,7 @@ func schemeKey(scheme, j, n int, x bool) key {
 
 func runPlan(w *tr.W, src, variant string, n, scheme int, acts []act) {
 	s := newStore(variant, n)
-	w.Emit(tr.E{"ev": "reset", "kind": "map", "variant": variant, "shards": n, "numbs": n, "scheme": scheme, "src": src})
+	w.Emit(tr.E{"ev": "reset", "kind": "map", "threads": 1, "variant": variant, "shards": n, "numbs": n, "scheme": scheme, "src": src})
 	for i, a := range acts {
 		k := schemeKey(scheme, a.K, n, isX(variant))
 		rec, r := call(s, a.Op, k, a.V, i%2 == 1)
@@ -563,13 +566,135 @@ func runRandom(w *tr.W, rng *rand.Rand, variant string, n, nops int) {
 	for i := range pool {
 		pool[i] = randKey(rng, n, isX(variant))
 	}
-	w.Emit(tr.E{"ev": "reset", "kind": "map", "variant": variant, "shards": n, "numbs": n, "scheme": -1, "src": "rand"})
+	w.Emit(tr.E{"ev": "reset", "kind": "map", "threads": 1, "variant": variant, "shards": n, "numbs": n, "scheme": -1, "src": "rand"})
 	for i := 0; i < nops; i++ {
 		k := pool[rng.Intn(len(pool))]
 		op := []string{"set", "set", "set", "get", "get", "get", "exist", "exist", "del"}[rng.Intn(9)]
 		rec, r := call(s, op, k, 1+rng.Intn(1000), rng.Intn(2) == 0)
 		w.Emit(tr.E{"ev": "call", "a": rec, "r": r})
 	}
+}
+
+// Race rounds: the sharded containers must answer as the unsharded map also for concurrent callers
+// (cache.Map is safe for concurrent use).  Every round takes a FRESH container with 1..3 shards,
+// releases 2..4 goroutines together by a spin barrier and lets each issue 1..3 calls on a handful of
+// distinct keys (more keys than shards: several collide in one shard).  A global atomic sequence
+// number is drawn before a call starts and after it returned, so the merged inv/res order is
+// consistent with real time.  Only rounds in which calls really overlapped are kept (the others are
+// sequential histories, covered elsewhere; dropping can only lose coverage).  Every round ends with
+// a sequential Get + Exist probe of all keys of the round.  TLC infers the linearization.
+// Returns (rounds run, rounds kept).
+func runRaces(w *tr.W, rng *rand.Rand, rounds, keep int) (int, int) {
+	ran, kept := 0, 0
+	wide := []string{"wide", "widex", "lru", "lrux", "tiny", "tinyx"}
+	schemes := []int{0, 3, 9, 2, 4, 8}
+	for r := 0; r < rounds && kept < keep; r++ {
+		ran++
+		variant := wide[r%len(wide)]
+		if r%4 < 2 { // the maps proper get half of all rounds
+			variant = wide[r%2]
+		}
+		n := 1 + (r/2)%3
+		threads := 2 + rng.Intn(3)
+		scheme := schemes[rng.Intn(len(schemes))]
+		nkeys := 2 + rng.Intn(3)
+		if nkeys < threads {
+			nkeys = threads
+		}
+		pool := make([]key, nkeys)
+		for j := range pool {
+			pool[j] = schemeKey(scheme, j+1, n, isX(variant))
+		}
+		type step struct {
+			op string
+			k  key
+			v  int
+		}
+		progs := make([][]step, threads)
+		for t := range progs {
+			cnt := 1 + rng.Intn(3)
+			for i := 0; i < cnt; i++ {
+				k := pool[t%nkeys] // mostly a key of its own: distinct keys meet in one shard
+				if rng.Intn(4) == 0 {
+					k = pool[rng.Intn(nkeys)]
+				}
+				op := "set"
+				if i > 0 || rng.Intn(10) >= 7 {
+					op = []string{"set", "set", "get", "exist", "del"}[rng.Intn(5)]
+				}
+				progs[t] = append(progs[t], step{op, k, 100*(t+1) + i})
+			}
+		}
+		s := newStore(variant, n)
+		type sev struct {
+			seq int64
+			e   tr.E
+		}
+		per := make([][]sev, threads)
+		var seq int64
+		var goFlag, readyCnt int32
+		var wg sync.WaitGroup
+		for t := 0; t < threads; t++ {
+			wg.Add(1)
+			go func(t int) {
+				defer wg.Done()
+				atomic.AddInt32(&readyCnt, 1)
+				for atomic.LoadInt32(&goFlag) == 0 {
+				}
+				for i, st := range progs[t] {
+					a := tr.E{"op": st.op, "k": st.k.mapRec()}
+					if st.op == "set" {
+						a["v"] = st.v
+					}
+					if st.op == "del" && variant != "wide" && variant != "widex" {
+						a["op"] = "delr" // the LRU facades report whether they removed
+					}
+					s0 := atomic.AddInt64(&seq, 1)
+					_, rep := call(s, st.op, st.k, st.v, i%2 == 1)
+					s1 := atomic.AddInt64(&seq, 1)
+					per[t] = append(per[t], sev{s0, tr.E{"ev": "inv", "t": t + 1, "a": a}},
+						sev{s1, tr.E{"ev": "res", "t": t + 1, "r": rep}})
+				}
+			}(t)
+		}
+		for atomic.LoadInt32(&readyCnt) < int32(threads) {
+			runtime.Gosched()
+		}
+		atomic.StoreInt32(&goFlag, 1)
+		wg.Wait()
+		var all []sev
+		for _, p := range per {
+			all = append(all, p...)
+		}
+		sort.Slice(all, func(i, j int) bool { return all[i].seq < all[j].seq })
+		open, overlap := 0, false
+		for _, x := range all {
+			if x.e["ev"] == "inv" {
+				open++
+				if open > 1 {
+					overlap = true
+				}
+			} else {
+				open--
+			}
+		}
+		if !overlap {
+			continue
+		}
+		kept++
+		w.Emit(tr.E{"ev": "reset", "kind": "race", "threads": threads, "variant": variant, "shards": n, "numbs": n,
+			"scheme": scheme, "src": "race"})
+		for _, x := range all {
+			w.Emit(x.e)
+		}
+		for j, k := range pool {
+			rec, rep := call(s, "get", k, 0, j%2 == 1)
+			w.Emit(tr.E{"ev": "call", "a": rec, "r": rep})
+			rec, rep = call(s, "exist", k, 0, false)
+			w.Emit(tr.E{"ev": "call", "a": rec, "r": rep})
+		}
+	}
+	return ran, kept
 }
 
 func readPlan(path string) []act {
@@ -599,6 +724,9 @@ func main() {
 	nextra := flag.Int("nextra", 4, "additional random shard counts")
 	nhist := flag.Int("hist", 150, "random container histories")
 	maxops := flag.Int("maxops", 60, "max ops per random history")
+	races := flag.String("races", "races.ndjson", "race-round traces")
+	nrace := flag.Int("nrace", 3000, "race rounds to run at most")
+	nracekeep := flag.Int("nracekeep", 1200, "race rounds (with real overlap) to keep at most")
 	flag.Parse()
 	rng := rand.New(rand.NewSource(*seed))
 
@@ -646,5 +774,10 @@ func main() {
 		runRandom(mw, rng, v, n, 10+rng.Intn(*maxops))
 	}
 	mw.Close()
-	fmt.Printf("route_events=%d map_events=%d\n", w.N(), mw.N())
+
+	rw := tr.Create(*races)
+	ran, kept := runRaces(rw, rng, *nrace, *nracekeep)
+	rw.Close()
+	fmt.Printf("route_events=%d map_events=%d race_events=%d race_rounds=%d race_rounds_with_overlap=%d\n",
+		w.N(), mw.N(), rw.N(), ran, kept)
 }
